@@ -42,9 +42,24 @@ def get_finder_for(search_sid, config=None):  # get finder by Sid and optional c
     Returns:
         A Finder instance for this search.
     """
+    finders_by_type = _get_finders(config)
+    finder = finders_by_type.get(search_sid.type) or finders_by_type.get('default')
+    return finder or None
+
+
+_finders = {}
+
+
+def _get_finders(config=None):
+    """
+    Builds the Finders once per config, so that FindInAll can group the searches by Finder.
+    """
+    if config in _finders:
+        return _finders[config]
+
     # type: ignore
     from spil_sid_conf import projects, asset_types  # type: ignore
-    from spil import FindInConstants, FindInPaths, Finder
+    from spil import FindInConstants, FindInPaths
 
     finder_paths = FindInPaths()
     finder_projects = FindInConstants("project", projects)
@@ -61,12 +76,8 @@ def get_finder_for(search_sid, config=None):  # get finder by Sid and optional c
         'shot__state': finder_asset_states,
         'default': finder_paths
     }
-
-    finder: Finder = finders_by_type.get(search_sid.type, {}) or finders_by_type.get('default', {})
-    if finder:
-        return finder
-    else:
-        return None
+    _finders[config] = finders_by_type
+    return finders_by_type
 
 
 #########################################################
